@@ -146,7 +146,7 @@ def padZ (count exact : Nat) : List Nat := List.replicate (exact - count) 0
 
 /-- `write_float_scientific` -/
 def sciShape (noEWF : Bool) (ds : List Nat) (sci : Int) (o : WOpts) : Shape :=
-  let tr := truncateAndRound ds o
+  let tr := roundSci ds o
   let count := tr.1.length
   let exact := minExactDigits count o
   let frac : Option (List Nat) :=
@@ -168,7 +168,7 @@ def negShape (ds : List Nat) (sci : Int) (o : WOpts) : Shape :=
 
 /-- `write_float_positive_exponent` -/
 def posShape (ds : List Nat) (sci : Int) (o : WOpts) : Shape :=
-  let tr := truncateAndRound ds o
+  let tr := roundPos ds sci o
   let count := tr.1.length
   let leading := sci.toNat + 1 + (if tr.2 then 1 else 0)
   if leading ≥ count then
@@ -197,7 +197,7 @@ theorem writeScientific_shape (fmt : Format) (feats : Features) (ds : List Nat) 
     writeScientific fmt feats ds sci o er =
       (sciShape fmt.noExponentWithoutFraction ds sci o).render o.dp o.exp er (plusReqOf fmt feats) := by
   unfold writeScientific sciShape Shape.render
-  rcases htr : truncateAndRound ds o with ⟨d', c⟩
+  rcases htr : roundSci ds o with ⟨d', c⟩
   simp only [writeExponent_eq, expPart]
   by_cases c1 : ¬ fmt.noExponentWithoutFraction = true ∧ d'.length = 1 ∧ o.trim = true
   · simp only [c1, if_true]
@@ -232,7 +232,7 @@ theorem writeNegative_shape (ds : List Nat) (sci : Int) (o : WOpts) (expc er : N
 theorem writePositive_shape (ds : List Nat) (sci : Int) (o : WOpts) (expc er : Nat) (plusReq : Bool) :
     writePositive ds sci o = (posShape ds sci o).render o.dp expc er plusReq := by
   unfold writePositive posShape Shape.render
-  rcases htr : truncateAndRound ds o with ⟨d', c⟩
+  rcases htr : roundPos ds sci o with ⟨d', c⟩
   simp only []
   by_cases c1 : sci.toNat + 1 + (if c = true then 1 else 0) ≥ d'.length
   · simp only [c1, if_true]
@@ -279,6 +279,83 @@ theorem writeDigitsC_shape (fmt : Format) (feats : Features) (ds : List Nat) (sc
   simp only [] at h ⊢
   rw [← h]
   rfl
+
+/-! ## the digits a shape contains (after rounding and after the trim-after-rounding step) -/
+
+/-- digits laid out by `algorithm::write_float` -/
+def keptN (fmt : Format) (ds : List Nat) (sci : Int) (o : WOpts) : List Nat :=
+  let outside := sci < o.negBreak.getD (-5) ∨ sci > o.posBreak.getD 9
+  if ¬ fmt.noExponentNotation = true ∧ (fmt.requiredExponentNotation = true ∨ outside) then (roundSci ds o).1
+  else if sci < 0 then (truncateAndRound ds o).1
+  else (roundPos ds sci o).1
+
+/-- digits laid out by `compact::write_float` -/
+def keptC (fmt : Format) (ds : List Nat) (sci : Int) (o : WOpts) : List Nat :=
+  let tr := truncateAndRound ds o
+  keptN fmt tr.1 (sci + (if tr.2 then 1 else 0)) { o with maxDigits := none }
+
+/-- digits laid out by the back-end selected by the feature set: the rounded digits, minus the zeros that
+`trim_floats` drops after rounding (`kept_spec`) -/
+def keptOf (fmt : Format) (feats : Features) (ds : List Nat) (sci : Int) (o : WOpts) : List Nat :=
+  if feats.compact then keptC (effFmt feats fmt) ds sci o else keptN (effFmt feats fmt) ds sci o
+
+theorem all_zero_replicate (l : List Nat) (h : l.all (· = 0) = true) : l = List.replicate l.length 0 := by
+  induction l with
+  | nil => rfl
+  | cons d t ih =>
+    simp only [List.all_cons, Bool.and_eq_true, decide_eq_true_eq] at h
+    rw [List.length_cons, List.replicate_succ, ← ih h.2, h.1]
+
+theorem trimSci_zeros (o : WOpts) (ds : List Nat) : ∃ m, ds = trimSci o ds ++ List.replicate m 0 := by
+  unfold trimSci
+  split
+  · rename_i h
+    refine ⟨ds.tail.length, ?_⟩
+    rw [← all_zero_replicate ds.tail h.2]
+    cases ds <;> simp
+  · exact ⟨0, by simp⟩
+
+theorem trimPos_zeros (o : WOpts) (l : Nat) (ds : List Nat) : ∃ m, ds = trimPos o l ds ++ List.replicate m 0 := by
+  unfold trimPos
+  split
+  · rename_i h
+    refine ⟨(ds.drop l).length, ?_⟩
+    rw [← all_zero_replicate (ds.drop l) h.2.2, List.take_append_drop]
+  · exact ⟨0, by simp⟩
+
+theorem keptN_spec (fmt : Format) (ds : List Nat) (sci : Int) (o : WOpts) :
+    ∃ m, (truncateAndRound ds o).1 = keptN fmt ds sci o ++ List.replicate m 0 := by
+  unfold keptN roundSci roundPos
+  simp only []
+  split
+  · exact trimSci_zeros o _
+  · split
+    · exact ⟨0, by simp⟩
+    · exact trimPos_zeros o _ _
+
+/-- **the kept digits are the rounded digits up to trailing zeros** (so they denote the same number at the same
+scientific exponent) -/
+theorem kept_spec (fmt : Format) (feats : Features) (ds : List Nat) (sci : Int) (o : WOpts) :
+    ∃ m, (truncateAndRound ds o).1 = keptOf fmt feats ds sci o ++ List.replicate m 0 := by
+  unfold keptOf keptC
+  split
+  · have := keptN_spec (effFmt feats fmt) (truncateAndRound ds o).1
+      (sci + (if (truncateAndRound ds o).2 then 1 else 0)) { o with maxDigits := none }
+    rw [truncateAndRound_none _ _ rfl] at this
+    exact this
+  · exact keptN_spec _ ds sci o
+
+/-- without `trim_floats` nothing is dropped -/
+theorem kept_noTrim (fmt : Format) (feats : Features) (ds : List Nat) (sci : Int) (o : WOpts) (h : o.trim = false) :
+    keptOf fmt feats ds sci o = (truncateAndRound ds o).1 := by
+  have hs : ∀ l, trimSci o l = l := by intro l; unfold trimSci; simp [h]
+  have hp : ∀ n l, trimPos o n l = l := by intro n l; unfold trimPos; simp [h]
+  have hs' : ∀ l, trimSci { o with maxDigits := none } l = l := hs
+  have hp' : ∀ n l, trimPos { o with maxDigits := none } n l = l := hp
+  unfold keptOf keptC keptN roundSci roundPos
+  simp only [hs, hp, hs', hp', truncateAndRound_none _ { o with maxDigits := none } rfl]
+  repeat' split
+  all_goals rfl
 
 /-- the shape of the back-end selected by the feature set -/
 def shapeOf (fmt : Format) (feats : Features) (ds : List Nat) (sci : Int) (o : WOpts) : Shape :=
